@@ -57,6 +57,66 @@ fn end_timer(t: T, how: End) -> Option<f64> {
     }
 }
 
+/// 28 timers (shared / local x precise / coarse clock x three ways of ending), started 45 ms apart on their own threads and
+/// held for 120 ms each, so that together they are alive across every instant of more than a second (any whole-second or
+/// other clock boundary included). Each works on its own histogram. The recorded duration must lie between what the harness
+/// measured inside the timer's lifetime and around it (std::time::Instant, the same monotonic clock), with 30 ms of
+/// tolerance for the coarse clock's tick and millisecond truncation. Returns the number of timers checked.
+fn held_timers() -> Result<usize, (String, String)> {
+    use std::time::{Duration, Instant};
+    const TOL: f64 = 0.030;
+    let results: Vec<Result<(), (String, String)>> = std::thread::scope(|s| {
+        let hs: Vec<_> = (0..28usize)
+            .map(|k| {
+                s.spawn(move || {
+                    std::thread::sleep(Duration::from_millis(45 * k as u64));
+                    let local_kind = k % 2 == 1;
+                    let coarse = (k / 2) % 2 == 1;
+                    let how = [End::StopAndRecord, End::ObserveDuration, End::Drop][(k / 4) % 3];
+                    let hist = Histogram::with_opts(HistogramOpts::new("t", "h").buckets(vec![0.05, 10.0])).unwrap();
+                    let local = hist.local();
+                    let outer0 = Instant::now();
+                    let t = match (local_kind, coarse) {
+                        (false, false) => T::Shared(hist.start_timer()),
+                        (false, true) => T::Shared(hist.start_coarse_timer()),
+                        (true, false) => T::Local(local.start_timer()),
+                        (true, true) => T::Local(local.start_coarse_timer()),
+                    };
+                    let inner0 = Instant::now();
+                    std::thread::sleep(Duration::from_millis(120));
+                    let inner = inner0.elapsed().as_secs_f64();
+                    let returned = end_timer(t, how);
+                    let outer = outer0.elapsed().as_secs_f64();
+                    drop(local);
+                    let what = format!("{} timer on the {} clock ended by {:?} (timer #{})", if local_kind { "local" } else { "shared" }, if coarse { "coarse" } else { "precise" }, how, k);
+                    let (n, sum) = (hist.get_sample_count(), hist.get_sample_sum());
+                    if n != 1 {
+                        return Err(("timer-count-mismatch".to_string(), format!("{}: {} observations", what, n)));
+                    }
+                    for (name, v) in [("recorded", Some(sum)), ("returned", returned)] {
+                        if let Some(v) = v {
+                            if !(v >= inner - TOL && v <= outer + TOL) {
+                                return Err((
+                                    "timer-duration-wrong".to_string(),
+                                    format!("{}: {} {} s, but the timer was alive for at least {:.4} s and at most {:.4} s", what, name, v, inner, outer),
+                                ));
+                            }
+                        }
+                    }
+                    Ok(())
+                })
+            })
+            .collect();
+        hs.into_iter().map(|h| h.join().unwrap_or_else(|_| Err(("panic:held-timer".to_string(), "a held timer panicked".to_string())))).collect()
+    });
+    for r in &results {
+        if let Err(e) = r {
+            return Err(e.clone());
+        }
+    }
+    Ok(results.len())
+}
+
 impl Property for C18 {
     fn id(&self) -> &'static str {
         "C18"
@@ -67,7 +127,7 @@ impl Property for C18 {
          it to a freshly spawned thread (joined at once), observe_closure_duration / observe_closure_duration_coarse on the shared or a local histogram (the closure optionally observes / times / reads the same histogram), local flush / \
          clear / drop, create local. Oracle: count model (shared count and every local's pending count after every operation; +1 \
          exactly for record/drop, +0 for discard; a local timer's observation reaches the shared histogram when the timer dies), \
-         returned durations finite and >= 0, and the shared sample sum grows by exactly the returned duration. Non-trivial: >=3 \
+         returned durations finite and >= 0 (a final stage holds 28 timers of every flavour for 120 ms, staggered over more than a second, and requires the recorded duration to lie within the measured lifetime +- 30 ms), and the shared sample sum grows by exactly the returned duration. Non-trivial: >=3 \
          timers alive at once, ended in an order different from creation, with >=1 discard and >=1 cross-thread end. \
          Distinct = decoded choices."
     }
@@ -81,7 +141,26 @@ impl Property for C18 {
         }
     }
 
+    fn post(&self, _tier: Tier, _seed: u64, stats: &mut crate::engine::Stats) -> Result<(), (String, String, Vec<u8>)> {
+        // timers that are held for real time: what they record must be their duration
+        match held_timers() {
+            Ok(n) => {
+                stats.extra.push(("held_timers_checked".into(), serde_json::json!(n)));
+                Ok(())
+            }
+            Err((sig, d)) => Err((sig, d, vec![0xFD; 8])),
+        }
+    }
+
     fn run(&self, src: &mut Src, rep: &mut Report) -> Verdict {
+        // the 8-byte case 0xFD x 8 stands for the held-timer stage (see `post`)
+        if src.data() == [0xFD; 8] {
+            rep.class("held-timer-stage");
+            return match held_timers() {
+                Ok(_) => Verdict::Pass,
+                Err((sig, d)) => fail(sig, d),
+            };
+        }
         // every recorded duration is a finite number >= 0, so it never falls in the bucket le=-1 and always in le=f64::MAX
         let hist = Histogram::with_opts(HistogramOpts::new("t", "h").buckets(vec![-1.0, f64::MAX])).unwrap();
         let mut locals: Vec<Option<LocalHistogram>> = vec![];
